@@ -204,6 +204,9 @@ func (m *MTProto) makeRequest(data tl.Object, expectedTypes ...reflect.Type) (an
 	case *errorSessionConfigsChanged:
 		return m.makeRequest(data, expectedTypes...)
 
+	case *errorUndecodableResponse:
+		return nil, r
+
 	}
 
 	return tl.UnwrapNativeTypes(response), nil
@@ -304,7 +307,9 @@ func (m *MTProto) readMsg() error {
 		// сервисные сообщения ГАРАНТИРОВАННО в теле содержат TL.
 		obj, err = tl.DecodeUnknownObject(response.GetMsg())
 		if err != nil {
-			return errors.Wrap(err, "parsing object")
+			// only the key exchange step waiting for this answer can act on it: hand it the error,
+			// otherwise it would wait forever (or this loop's check(err) would end the program)
+			obj = &errorUndecodableResponse{err: errors.Wrap(err, "parsing object")}
 		}
 		m.serviceChannel <- obj
 		return nil
